@@ -44,6 +44,15 @@ impl Log {
     }
     /// metrics sanity that cannot be expressed by comparing integers with the model:
     /// `created` never changes, `recycled` never moves backwards and is not before `created`
+    /// at hand-out: a reused object carries a `recycled` stamp taken during this very get
+    fn see_handout(&self, oid: usize, m: &Metrics, started: std::time::Instant) {
+        if m.recycle_count > 0 {
+            match m.recycled {
+                Some(r) if r >= started => {}
+                _ => self.ev([EV_ANOMALY, oid as i64, 5, 0, 0]),
+            }
+        }
+    }
     fn see_metrics(&self, oid: usize, m: &Metrics) {
         let mut st = self.stamps.lock().unwrap();
         match st.get_mut(&oid) {
@@ -482,11 +491,13 @@ impl World {
                 OP_GET => {
                     let p = p.unwrap();
                     let to = timeouts_of(a);
+                    let started = std::time::Instant::now();
                     let r = drive(ctx, p.timeout_get(&to));
                     match r {
                         PollEnd::Ready(Ok(obj)) => {
                             let m = *Object::metrics(&obj);
                             log.see_metrics(obj.id, &m);
+                            log.see_handout(obj.id, &m, started);
                             log.ev([
                                 EV_HANDOUT,
                                 obj.id as i64,
@@ -718,6 +729,11 @@ impl Gen {
                 if self.profile == Profile::Resize {
                     let snap = w.pool.lock().unwrap().as_ref().unwrap().verif_snapshot();
                     let out = snap.size.saturating_sub(snap.idle_len) as u64;
+                    if snap.debt > 0 && snap.idle_len > 0 {
+                        // retain (removing something) while a shrink is still owed permits
+                        let nb = snap.idle_len.min(4) as i64;
+                        cands.push((6, vec![L_START, nt, OP_RETAIN, r.below((1 << nb) - 1) as i64, nb]));
+                    }
                     if snap.debt >= 2 {
                         // a grow that is smaller than what is still owed to the last shrink
                         let by = 1 + r.below(snap.debt as u64 - 1);
